@@ -326,16 +326,17 @@ func (m *c42nModel) verify(rt *rapid.T, ctx context.Context, c *c42nClient, why 
 	}
 }
 
-func c42nCase(rt *rapid.T, rec *vh.Recorder) {
+func c42nCase(rt *rapid.T, rec *vh.Recorder, gitOnly bool) {
 	ctx := context.Background()
 	var kind string
+	// git cases (hundreds of git processes each) run as their own small sub-check
 	switch n := c42nPct(rt, "backend"); {
-	case n < 87:
-		kind = "inmem"
-	case n < 95:
-		kind = "local"
-	default:
+	case gitOnly:
 		kind = "git"
+	case n < 93:
+		kind = "inmem"
+	default:
+		kind = "local"
 	}
 	w, rm := c42nNewWorld(rt, kind)
 	defer rm()
@@ -575,5 +576,6 @@ func TestVerif_C42_NBS(t *testing.T) {
 		"git clients run with the read-side fetch dedup window disabled (SyncForReadTTL=1ns); within the production window of 1 s a handle may serve a stale manifest by design",
 		"chunks that became durable after a client's last refresh are not required to be visible or invisible to it")
 	defer rec.Write(t)
-	vh.Check(t, "nbs", 260, 420, func(rt *rapid.T) { c42nCase(rt, rec) })
+	vh.Check(t, "nbs", 260, 420, func(rt *rapid.T) { c42nCase(rt, rec, false) })
+	vh.Check(t, "nbs_git", 3, 6, func(rt *rapid.T) { c42nCase(rt, rec, true) })
 }
